@@ -8,9 +8,10 @@ CONSTANTS
   Ranges <- MCRanges
   PMax = 6
   SplCfgs <- MCSplCfgs
-  LamSeeds = {0, 1, 2, 3}
+  LamSeeds = {0, 1, 2, 3, 99}
   DecCfgs <- MCDec
   BigTab <- MCBig
+  Hyper <- MCHyper
   Emit = TRUE
 INVARIANTS InvLJ InvEdges InvTab VectorLJ InvSpl VectorSpl
 CHECK_DEADLOCK FALSE
